@@ -1981,3 +1981,81 @@ def rule_typedef_yields_one_instantiation(ctx, rep: Report, rid="N11"):
     listed = [x for x in made if x["__kind__"] == "InstantiatedClass" and any(p is cls_t for p in parts(x)) and len(parts(x)) == 2]
     rep.add(rid, "typedef:the template's own combinations are instantiated besides the typedefs", len(listed) == 2,
             f"{len(listed)} instantiation(s) from the lists of `template<T={{A, B}}> class Foo`, 2 expected", loc, nontrivial=False)
+
+
+def rule_instantiate_type_by_evaluation(ctx, rep: Report, rid="S14", part="substitution"):
+    """`instantiate_type` run by the analyser's interpreter (the parser's own Type / Typename classes, deepcopy included) on
+    sample type expressions, the result spelled by the tool's own `to_cpp()`.  part='substitution' (C02): every use of a
+    parameter - whole, behind const / & / * / @, as a template argument at any depth, as the head of a scoped name - and the
+    reserved `This` come out as the concrete type, names that merely contain a parameter's letters and types that mention
+    no parameter come out unchanged, and the qualifiers stay where they were.  part='purity' (C13): the type expression handed
+    in is still spelled as before afterwards (the next instantiation starts from the same declaration).  Nested `This` /
+    nested scoped uses are the two recorded findings of S2 and are not part of the samples."""
+    from .rules_matlab import SampleObj, _PathEval, _Raised, mini_exec, program_classes
+    prog = ctx.prog
+    fn = prog.func(f"{TI}/helpers.py", "instantiate_type")
+    mi = prog.module(f"{TI}/helpers.py")
+    loc = f"{mi.rel}:{fn.lineno}"
+    classes = program_classes(prog, ["Typename", "Type", "TemplatedType", "ReturnType", "Argument", "ArgumentList"])
+    ps = func_params(fn)
+    if ps[:4] != ["ctype", "template_typenames", "instantiations", "cpp_typename"] or "Type" not in classes or "Typename" not in classes:
+        rep.add(rid, "instantiate_type evaluated on sample types", True, "signature changed; the structural rules decide", loc, nontrivial=False)
+        return
+
+    def tn(name, ns=(), inst=()):
+        return SampleObj(__kind__="Typename", name=name, namespaces=list(ns), instantiations=list(inst))
+
+    def ty(t, const="", ref="", ptr="", sp="", basic=False):
+        return SampleObj(__kind__="Type", typename=t, is_const=const, is_ref=ref, is_ptr=ptr, is_shared_ptr=sp, is_basic=basic)
+
+    def spell(t):
+        return mini_exec(classes["Type"]["to_cpp"], {"self": t}, budget=20000, functions=dict(mi.functions), classes=classes)
+    P3, D = ("gtsam::Pose3", lambda: tn("Pose3", ["gtsam"])), ("double", lambda: tn("double"))
+    this_cpp = "ns::Foo<gtsam::Pose3, double>"
+    cases = [
+        ("T", lambda: ty(tn("T")), "gtsam::Pose3"),
+        ("const T&", lambda: ty(tn("T"), const="const", ref="&"), "const gtsam::Pose3&"),
+        ("U*", lambda: ty(tn("U"), sp="*"), "std::shared_ptr<double>"),
+        ("T@", lambda: ty(tn("T"), ptr="@"), "gtsam::Pose3*"),
+        ("std::vector<T>", lambda: ty(tn("vector", ["std"], [tn("T")])), "std::vector<gtsam::Pose3>"),
+        ("const std::vector<std::vector<U>>&", lambda: ty(tn("vector", ["std"], [tn("vector", ["std"], [tn("U")])]), const="const", ref="&"), "const std::vector<std::vector<double>>&"),
+        ("std::map<size_t, T>", lambda: ty(tn("map", ["std"], [tn("size_t"), tn("T")])), "std::map<size_t, gtsam::Pose3>"),
+        ("std::map<T, U>", lambda: ty(tn("map", ["std"], [tn("T"), tn("U")])), "std::map<gtsam::Pose3, double>"),
+        ("std::pair<double, std::map<int, std::vector<T>>>", lambda: ty(tn("pair", ["std"], [tn("double"), tn("map", ["std"], [tn("int"), tn("vector", ["std"], [tn("T")])])])),
+         "std::pair<double, std::map<int, std::vector<gtsam::Pose3>>>"),
+        ("T::Value", lambda: ty(tn("Value", ["T"]), const="const", ref="&"), "const gtsam::Pose3::Value&"),
+        ("This", lambda: ty(tn("This"), sp="*"), None),
+        ("ns::Other", lambda: ty(tn("Other", ["ns"]), ref="&"), "ns::Other&"),
+        ("Tee", lambda: ty(tn("Tee")), "Tee"),
+        ("std::vector<Tee>", lambda: ty(tn("vector", ["std"], [tn("Tee")])), "std::vector<Tee>"),
+        ("UT::Value", lambda: ty(tn("Value", ["UT"])), "UT::Value"),
+    ]
+    diffs, impure, n = [], [], 0
+    try:
+        for label, mk, want in cases:
+            ct = mk()
+            before = spell(ct)
+            cpp_tn = tn("Foo", ["ns"], [P3[1](), D[1]()])
+            env = {"ctype": ct, "template_typenames": ["T", "U"], "instantiations": [P3[1](), D[1]()], "cpp_typename": cpp_tn}
+            for p_, d_ in zip(ps[len(ps) - len(fn.args.defaults):], fn.args.defaults):
+                env.setdefault(p_, ast.literal_eval(d_))
+            res = mini_exec(fn, env, budget=80000, functions=dict(mi.functions), classes=classes)
+            n += 1
+            got = spell(res) if isinstance(res, SampleObj) else None
+            if want is None:
+                want = ("std::shared_ptr<" + mini_exec(classes["Typename"]["to_cpp"], {"self": cpp_tn}, budget=20000, classes=classes) + ">")
+            if (got or "").replace(" ", "") != want.replace(" ", ""):
+                diffs.append(f"`{label}` comes out as `{got}`, `{want}` expected")
+            after = spell(ct)
+            if after != before:
+                impure.append(f"`{label}`: the declaration's own type reads `{after}` after the call (was `{before}`)")
+    except (_PathEval.Unknown, _Raised, TypeError, KeyError, AttributeError, IndexError) as ex:
+        rep.add(rid, "instantiate_type evaluated on sample types", True, f"not evaluable ({ex}); the structural rules decide", loc, nontrivial=False)
+        return
+    rep.units["instantiate_type_runs"] = n
+    if part == "substitution":
+        rep.add(rid, "instantiate_type:sample type expressions come out with every parameter replaced and nothing else touched (T := gtsam::Pose3, U := double)", not diffs,
+                f"{diffs[:3]}: the instantiated declaration names a type that does not exist, or another type than the template says", loc)
+    else:
+        rep.add(rid, "instantiate_type:the type expression handed in is left as it was", not impure,
+                f"{impure[:2]}: the next instantiation of the same template starts from a declaration the first one has rewritten", loc)
